@@ -31,9 +31,13 @@ LEVEL_NOTE = ("proved: shm api (src/cascade/shm/api.py) through the generated ta
               "messages (pickle; serde.py, comms.callback / ReliableSender.send / send_data -> Listener._recv_one incl. payload frames), "
               "controller reports (pickle), gateway request/response pairs (pydantic + orjson; request_response, parse_request, "
               "serialize_response) and JobInstance -> orjson.dumps(job.dict()) -> file -> JobInstance (router._spawn_local writer, "
-              "benchmarks get_job reader; compared by model_dump) are round-tripped through the real code with boundary-biased "
-              "values generated from the type annotations; pickle, pydantic and orjson themselves are trusted (Model/Json.lean models "
-              "only the key layout of the job dump, not pydantic's coercions nor orjson's number formatting). The frame-sequence "
+              "benchmarks get_job reader) are round-tripped through the real code: a deterministic sweep (every class x every leaf x "
+              "every boundary value / structured identifier / container shape) plus boundary-biased random values generated from the "
+              "type annotations; decoded objects are compared FIELD BY FIELD (never by repr), and mappings whose order carries meaning "
+              "(JobInstance.tasks, TaskDefinition.input_schema / output_schema, static_input_kw / static_input_ps) are compared WITH "
+              "their order; pickle, pydantic and orjson themselves are trusted (Model/Json.lean models only the key layout of the job "
+              "dump, not pydantic's coercions, orjson's number formatting nor the ORDER of object keys -- Lean's Json objects are "
+              "sorted maps, the order is checked by the Python oracle only). The frame-sequence "
               "parser of comms.Listener is proved under C06, here it is only used as a pipe. String lengths compared with the real "
               "code reach 70 000 characters (2^32-1 is covered by the theorem only). The UDP transport of the shm protocol "
               "(recv(1024)) is outside the model.")
@@ -45,8 +49,15 @@ RULE = ("shm: (a) deterministic sweep: every class x every field x every boundar
         "2^32+1, 2^63, 2^64-1, 2^64, 2^64+1, 2^70, negatives; strings empty, md5-like, control chars, DEL, non-ASCII, lone surrogate, "
         "lengths 255/256/65535/65536/70000 for keys; enum members and non-members; wrong-typed values) with distinct values in the "
         "other fields; (b) random messages, boundary-biased; (c) decoding of truncated / corrupted / re-tagged byte strings. "
-        "sampled families exec/report/gateway/job: values generated from the real type annotations, boundary-biased ints and strings, "
-        "bytes payloads, multi-output tasks with positional and keyword edges; plus fixed probes outside the JSON domain. "
+        "sampled families exec/report/gateway/job: (a) deterministic sweep, the same for every seed: per message class a base value with "
+        "distinct fields and every variant that differs from it in ONE leaf -- ints at the 2^31/2^32/2^53/2^63/2^64 boundaries, "
+        "identifier strings with the separators the code itself uses ('.', ',', ':', '/', '|', blanks), empty components, fully "
+        "qualified host names, ip addresses, zmq addresses, unicode, NUL; container shapes (empty, duplicates, pairs of ids with EQUAL "
+        "repr such as ('a.b','c') / ('a','b.c')); every str-keyed mapping with >= 2 keys declared in NON-sorted order "
+        "(['b','a'], ['10','9','2'], ['upper','lower','__aux'], ...); (b) random values generated from the real type annotations, "
+        "with the same structured shapes frequent (ids re-used / recombined inside one message), bytes payloads, multi-output "
+        "tasks with positional and keyword edges, 11 positional static inputs; (c) fixed probes outside the JSON domain. A failing "
+        "case is shrunk greedily before it is reported. "
         "non-trivial = message with at least one field carrying a non-default value; distinct by content hash")
 ASSUMPTIONS = [
     "the translator recognises only declarative module-level code in api.py; behaviour installed at run time (monkeypatching inside a function) is seen by the byte-level comparison only",
@@ -533,8 +544,8 @@ def _run_sampled(ctx, n_per_family, with_model=False):
             ctx.count(f"{fam}:outside-domain:{p}")
         if "sweep" in case:
             ctx.count(f"{fam}:sweep")
-        for k, n in S.shape_counts(case).items():
-            ctx.count(f"{fam}:{k}", n)
+        for k, n in S.shape_counts(case).items():       # shapes of the random / corpus part and of the sweep, counted apart
+            ctx.count(f"{fam}:{'sweep:' if 'sweep' in case else ''}{k}", n)
         if r["status"] == "ok":
             ctx.traces += 1
             if with_model and fam == "job" and S.LAST_JOB_BYTES[0] is not None and len(S.LAST_JOB_BYTES[0]) < 200000:
@@ -548,6 +559,13 @@ def _run_sampled(ctx, n_per_family, with_model=False):
             key = json.dumps(sig, sort_keys=True)
             if key not in reported:
                 reported.add(key)
+                try:
+                    small = S.shrink(case) if len(reported) <= 12 else case      # shrink once per kind of failure, bounded in total
+                    r2 = S.evaluate(small)
+                    if r2["violation"] is not None and r2["violation"][0] == sig:
+                        case, what = small, r2["violation"][1]
+                except Exception as e:
+                    ctx.count("sampled:shrink_failed:" + type(e).__name__)
                 ctx.violation(sig, case, what)
 
 
